@@ -579,7 +579,9 @@ where
                 self.session.on_incoming_end(channel, end)?;
             }
             SessionState::EndSent => {
-                self.wait_for_remote_end(false).await?;
+                // Something failed while the session was already ending: what else the peer
+                // has in flight is dropped, only its end is awaited (see above)
+                self.wait_for_remote_end(true).await?;
             }
             SessionState::EndReceived => {
                 self.session
